@@ -319,40 +319,53 @@ def run_wait_procs_case(case, acc):
     w = World(procs)
     with w:
         objs = [ps.Process(pr["pid"]) for pr in procs]
+        # the same process mentioned more than once: the very same object again, or a second equal object
+        given = list(objs)
+        for idx, how in case.get("dups", []):
+            if idx < len(objs):
+                given.append(objs[idx] if how == "same" else ps.Process(procs[idx]["pid"]))
+        if case.get("dups"):
+            harness.rng_for("c15dups", len(given), case["timeout"]).shuffle(given)
+            acc.count("wait_procs_with_repeated_mentions")
         cb_calls = []
         cb = (lambda p: cb_calls.append(p)) if case.get("callback", True) else None
         w.clock.advance(0)
         start = w.clock.t
         try:
-            gone, alive = ps.wait_procs(objs, timeout=timeout, callback=cb)
+            gone, alive = ps.wait_procs(given, timeout=timeout, callback=cb)
         except Exception as e:  # noqa: BLE001
             viols.append((f"wait_procs_exception:{type(e).__name__}", ctx + f" {e!r}"))
             acc.case(case, True, viols)
             return
         end = w.clock.t
         acc.count("wait_procs_checked")
-        ids = [id(o) for o in objs]
-        gi, ai = [id(o) for o in gone], [id(o) for o in alive]
-        if sorted(gi + ai) != sorted(ids) or set(gi) & set(ai):
-            viols.append(("gone_alive_not_a_partition", ctx + f" gone={[o.pid for o in gone]} alive={[o.pid for o in alive]}"))
-        for o, pr in zip(objs, procs):
+        gp, ap = [o.pid for o in gone], [o.pid for o in alive]
+        if sorted(gp + ap) != sorted(pr["pid"] for pr in procs):
+            # every process exactly once, however often it was mentioned
+            viols.append(("gone_alive_not_a_partition", ctx + f" gone={gp} alive={ap}"))
+        if any(not any(o is g for g in given) for o in list(gone) + list(alive)):
+            viols.append(("result_object_not_from_input", ctx))
+        for pr in procs:
+            pid = pr["pid"]
             T = None if pr["exit_at"] is None else w.t0 + pr["exit_at"]
-            if id(o) in gi:
+            ncb = sum(1 for c in cb_calls if c.pid == pid)
+            if pid in gp:
+                o = [x for x in gone if x.pid == pid][0]
                 if T is None or T > end + 1e-12:
-                    viols.append(("alive_process_reported_gone", ctx + f" pid={o.pid}"))
+                    viols.append(("alive_process_reported_gone", ctx + f" pid={pid}"))
                 if not hasattr(o, "returncode"):
-                    viols.append(("gone_without_returncode", ctx + f" pid={o.pid}"))
+                    viols.append(("gone_without_returncode", ctx + f" pid={pid}"))
                 elif o.returncode != expected_value(pr["kind"], pr["status"]):
-                    viols.append(("wrong_returncode", ctx + f" pid={o.pid} got {o.returncode!r}"))
-                if cb is not None and sum(1 for c in cb_calls if c is o) != 1:
-                    viols.append(("callback_not_exactly_once", ctx + f" pid={o.pid} n={sum(1 for c in cb_calls if c is o)}"))
+                    viols.append(("wrong_returncode", ctx + f" pid={pid} got {o.returncode!r}"))
+                if cb is not None and ncb != 1:
+                    viols.append(("callback_not_exactly_once", ctx + f" pid={pid} n={ncb}"))
             else:
-                if cb is not None and any(c is o for c in cb_calls):
-                    viols.append(("callback_for_alive_process", ctx + f" pid={o.pid}"))
+                if cb is not None and ncb:
+                    viols.append(("callback_for_alive_process", ctx + f" pid={pid}"))
                 if timeout is None:
-                    viols.append(("returned_with_alive_and_no_timeout", ctx + f" pid={o.pid}"))
+                    viols.append(("returned_with_alive_and_no_timeout", ctx + f" pid={pid}"))
                 if T is not None and T <= start + 1e-12:
-                    viols.append(("already_dead_process_reported_alive", ctx + f" pid={o.pid}"))
+                    viols.append(("already_dead_process_reported_alive", ctx + f" pid={pid}"))
         if timeout is not None and end > start + timeout + 0.04 + 1e-9:
             viols.append(("wait_procs_late", ctx + f" returned at +{end - start:.6f} timeout {timeout}"))
         if max(w.clock.sleeps, default=0) > 0.04 + 1e-12:
@@ -372,6 +385,10 @@ def wait_procs_cases(tier):
                 procs = [dict(pid=70 + i, kind=("child" if i % 2 == 0 else "nonchild"), exit_at=x, status=((i + 1) << 8) if i != 2 else 15)
                          for i, x in enumerate(times)]
                 out.append(dict(procs=procs, timeout=timeout, callback=True))
+                if n <= 2:
+                    for how in ("same", "equal"):
+                        out.append(dict(procs=procs, timeout=timeout, callback=True, dups=[[0, how]]))
+                        out.append(dict(procs=procs, timeout=timeout, callback=True, dups=[[n - 1, how], [0, "same"]]))
     return out
 
 
@@ -383,7 +400,10 @@ def gen_wait_procs_case(rng):
         x = rng.choice([0.0, rng.random() * 3, rng.random() * 0.2, None if timeout is not None else 0.1])
         procs.append(dict(pid=70 + i, kind=rng.choice(["child", "nonchild"]), exit_at=x,
                           status=rng.choice([rng.randrange(256) << 8, rng.randrange(1, 32)])))
-    return dict(procs=procs, timeout=timeout, callback=rng.random() < 0.8)
+    case = dict(procs=procs, timeout=timeout, callback=rng.random() < 0.8)
+    if rng.random() < 0.3:
+        case["dups"] = [[rng.randrange(n), rng.choice(["same", "equal"])] for _ in range(rng.randrange(1, 4))]
+    return case
 
 
 # ---- live children -------------------------------------------------------------------------------------
@@ -393,6 +413,7 @@ def run_live(acc, tier):
     ps.PROCFS_PATH = "/proc"
     try:
         _run_live(acc, tier, ps)
+        run_live_popen(acc, ps)
     finally:
         ps.PROCFS_PATH = "/vproc"
 
@@ -432,6 +453,54 @@ def _run_live(acc, tier, ps):
             except Exception:  # noqa: BLE001
                 pass
         acc.case(dict(live=kind, value=int(v)), True, viols)
+
+
+def run_live_popen(acc, ps):
+    """psutil.Popen joins two caches of the exit status (subprocess's returncode and psutil's): whichever half collected the
+    status first - wait(), poll(), communicate(), leaving a with-block, wait_procs() - every later wait() gives the same value."""
+    import time
+    envp = {k: v for k, v in os.environ.items() if k != "LD_PRELOAD"}
+    for how in ("wait", "poll", "communicate", "with", "wait_procs", "poll_then_wait_procs"):
+        for kind, v in (("exit", 0), ("exit", 1), ("exit", 255), ("sig", int(signal.SIGTERM))):
+            want = v if kind == "exit" else -v
+            code = f"import os; os._exit({v})" if kind == "exit" else "import time; time.sleep(60)"
+            viols = []
+            p = ps.Popen([sys.executable, "-S", "-c", code], env=envp, stdout=subprocess.DEVNULL)
+            try:
+                if kind == "sig":
+                    time.sleep(0.05)
+                    os.kill(p.pid, v)
+                if how in ("poll", "poll_then_wait_procs"):
+                    t0 = time.time()
+                    while p.poll() is None and time.time() - t0 < 30:
+                        time.sleep(0.01)
+                elif how == "communicate":
+                    p.communicate(timeout=30)
+                elif how == "with":
+                    with p:
+                        pass
+                if how in ("wait_procs", "poll_then_wait_procs"):
+                    gone, alive = ps.wait_procs([p], timeout=30)
+                    if [x.pid for x in gone] != [p.pid] or alive:
+                        viols.append(("live_popen_wait_procs_wrong", f"{how} {kind} {v}: gone={gone} alive={alive}"))
+                    elif getattr(gone[0], "returncode", "unset") != want:
+                        viols.append(("live_popen_wrong_returncode", f"{how} {kind} {v}: wait_procs set returncode "
+                                                                     f"{getattr(gone[0], 'returncode', 'unset')!r} want {want}"))
+                got = [p.wait(timeout=30) for _ in range(3)]
+                acc.count("live_children_checked")
+                acc.count("live_popen_sequences_checked")
+                if got != [want] * 3:
+                    viols.append(("live_popen_wait_value_wrong", f"status collected through {how}, child {kind} {v}: wait() x3 -> {got} want {want}"))
+                if p.returncode != want:
+                    viols.append(("live_popen_wrong_returncode", f"{how} {kind} {v}: returncode {p.returncode!r} want {want}"))
+            except Exception as e:  # noqa: BLE001
+                viols.append((f"live_exception:{type(e).__name__}", f"Popen {how} {kind} {v}: {e!r}"))
+            finally:
+                try:
+                    p.kill()
+                except Exception:  # noqa: BLE001
+                    pass
+            acc.case(dict(live="popen", how=how, kind=kind, value=v), True, viols)
 
 
 def plan(tier, seed):
